@@ -8,6 +8,11 @@ COMMON_NOTE = ('Trusted: Coq 8.16.1 kernel incl. vm_compute (no native_compute);
                'the global context); tools/py2v + Lib/{PyZ,Monad,Machine}.v (translator and operator/state semantics, '
                'validated by the 3-way correspondence real code / regenerated model / spec); Spec/ is the oracle. ')
 CLAIMS = {
+ 'C01': ('67 data-processing opcode classes (ADC..TST, shifts, moves; immediate / register / register-shifted-register) '
+         'each proved equal to one semantic function dp_sem (A8.8 pseudocode: Shift_C, AddWithCarry, flags, ALUWritePC) '
+         'for every operand value, flag state, mode, architecture version; frame of dp_sem proved once.',
+         'Scope: execute() of the opcode classes with condition passed (C05 covers the failing case) and field ranges as '
+         'produced by decode; ADR, MOVT and the decode of operands (C06/C07) are not in these theorems.'),
  'C05': ('CurrentCond and the 16x16 ConditionPassed table proved for every machine state; every conditional opcode class '
          '(266 of 273, enumerated from the regenerated dispatcher) proved a no-op when its condition fails.',
          'Partial: the whole-step statement (only PC/IT/scratch change) is not yet a theorem; "behaves as the unconditional '
